@@ -671,6 +671,11 @@ class Randomizer(RandIF):
                 # Random-size lists were grown to their largest admissible
                 # size for the solve: keep the elements they expose
                 fm.accept(ArrayTrimVisitor())
+            # The constraints passed to this call were expanded as well; they
+            # may reach blocks that no class constraint refers to (a dynamic
+            # constraint named only inline)
+            for c in constraint_l[:constraints_len]:
+                ConstraintOverrideRollbackVisitor.rollback(c)
 
         visited = [] 
         for fm in field_model_l:
